@@ -342,7 +342,7 @@ Qed.
 Lemma rvals_structure ft fv ep : sortedZ ft -> canonical ep -> length fv = length ft ->
   rvals ft fv ep = concat (map (fun iv => map snd (filter (fun r => inb (fst r) iv) (combine ft fv))) ep).
 Proof.
-  intros Hs Hc Hl. unfold rvals, restrict_idx, select. rewrite concat_map, map_map.
+  intros Hs Hc Hl. unfold rvals, restrict_idx, select. rewrite concat_map.
   destruct (canonical_canon _ Hc) as [lo Hlo].
   destruct (scan_spec ep lo 0%nat ft Hlo Hs) as [H _].
   { apply Forall_forall; intros; right; exact I. }
@@ -360,15 +360,16 @@ Proof.
   cbn [map fst snd concat]. rewrite vf_all_cons, map_app. f_equal.
   - unfold vf_block, attr_block. destruct rows as [|r0 rs].
     + cbn [map]. rewrite map_map. reflexivity.
-    + set (rows := r0 :: rs).
+    + cbv iota. set (rows := r0 :: rs).
       change (map fst (r0 :: rs)) with (map fst rows).
       assert (Hne : match map fst rows with [] => False | _ :: _ => True end) by exact I.
       destruct (map fst rows) as [|s0 ss] eqn:Esrc; [destruct Hne|]. rewrite <- Esrc. clear Hne.
-      rewrite map_map.
+      clearbody rows. rewrite map_map.
       assert (F : Forall (in_range 0 (length (map fst rows))) (vf_interval 1 qs (map fst rows) 0%nat)).
       { apply vf_interval_in_range. rewrite Esrc. simpl. lia. }
       apply map_ext_in. intros o Ho. rewrite Forall_forall in F. specialize (F o Ho).
-      destruct o as [j|]; [|reflexivity]. simpl in F. rewrite map_length in F. simpl. f_equal.
+      destruct o as [j|]; [|reflexivity]. unfold in_range in F. rewrite map_length in F.
+      cbn [option_map]. f_equal.
       rewrite app_nth2_plus, app_nth1 by (rewrite map_length; lia).
       apply nth_map_snd.
   - specialize (IH (pre ++ map snd rows)). rewrite app_length, !map_length in IH.
@@ -434,3 +435,356 @@ Proof.
   eapply Forall_impl'; [|apply (value_from_lt_rvals sp ft fv ep)].
   intros [j|] H; simpl; [|exact I]. apply nth_In. exact H.
 Qed.
+
+(* ---------------------------------------------------------------------------------------------- *)
+(* somes, combine                                                                                 *)
+Lemma count_if_somes {A} (p : A -> bool) (l : list (option A)) :
+  count_if p (somes l) = count_if (fun o => match o with Some v => p v | None => false end) l.
+Proof.
+  induction l as [|[v|] r IH]; [reflexivity| |exact IH].
+  unfold somes in *. cbn [flat_map app count_if]. rewrite IH. reflexivity.
+Qed.
+
+Lemma in_somes {A} (v : A) l : In v (somes l) -> In (Some v) l.
+Proof.
+  unfold somes. rewrite in_flat_map. intros (o & Ho & Hv).
+  destruct o as [w|]; [|destruct Hv]. destruct Hv as [<-|[]]. exact Ho.
+Qed.
+
+Lemma in_combine_nth {A B} (d1 : A) (d2 : B) l1 l2 a b : length l1 = length l2 -> In (a, b) (combine l1 l2) ->
+  exists k, (k < length l1)%nat /\ a = nth k l1 d1 /\ b = nth k l2 d2.
+Proof.
+  intros Hl Hin. destruct (In_nth _ _ (d1, d2) Hin) as (k & Hk & E).
+  rewrite combine_length, <- Hl, Nat.min_id in Hk. rewrite combine_nth in E by exact Hl.
+  inversion E. exists k. auto.
+Qed.
+
+Lemma nth_map_combine {A B C} (f : A * B -> C) d (d1 : A) (d2 : B) l1 l2 k :
+  length l1 = length l2 -> (k < length l1)%nat ->
+  nth k (map f (combine l1 l2)) d = f (nth k l1 d1, nth k l2 d2).
+Proof.
+  intros Hl Hk. rewrite (nth_indep _ d (f (d1, d2))).
+  - rewrite map_nth, combine_nth by exact Hl. reflexivity.
+  - rewrite map_length, combine_length, <- Hl, Nat.min_id. exact Hk.
+Qed.
+
+Lemma ratio_not_inf rate c o : (o = 0%nat -> c = 0%nat) -> ratio rate c o <> TInf.
+Proof.
+  intros H. unfold ratio. destruct (Nat.eqb_spec o 0) as [Ho|Ho]; [|discriminate].
+  rewrite (H Ho). simpl. discriminate.
+Qed.
+
+(* ---------------------------------------------------------------------------------------------- *)
+(* A4. 1-d tuning curve                                                                           *)
+Section NumPy1.
+Variable H : list Z -> list Z -> list nat.
+Hypothesis H_law : forall edges xs, H edges xs = hist edges xs.
+
+Theorem tc1d_count_spec : forall edges sp ft fv ep,
+  tc1d_count H edges sp ft fv ep =
+  map (fun k => count_if (in_hbin edges k) (attributed sp ft fv ep)) (seq 0 (nbins edges)).
+Proof.
+  intros. unfold tc1d_count. rewrite H_law. unfold hist. apply map_ext. intros k.
+  rewrite count_if_somes. reflexivity.
+Qed.
+
+Theorem tc1d_conservation : forall edges sp ft fv ep, increasing edges -> (2 <= length edges)%nat ->
+  sum_nat (tc1d_count H edges sp ft fv ep) = count_if (in_range_o edges) (attributed sp ft fv ep).
+Proof.
+  intros edges sp ft fv ep Hi Hl. unfold tc1d_count. rewrite H_law, hist_conservation by assumption.
+  rewrite count_if_somes. reflexivity.
+Qed.
+
+Lemma tc1d_count_length edges sp ft fv ep : length (tc1d_count H edges sp ft fv ep) = nbins edges.
+Proof. unfold tc1d_count. rewrite H_law. apply hist_length. Qed.
+Lemma tc1d_occ_length edges ft fv ep : length (tc1d_occ H edges ft fv ep) = nbins edges.
+Proof. unfold tc1d_occ. rewrite H_law. apply hist_length. Qed.
+
+Theorem tc1d_visited : forall edges sp ft fv ep k,
+  nth k (tc1d_occ H edges ft fv ep) 0%nat = 0%nat -> nth k (tc1d_count H edges sp ft fv ep) 0%nat = 0%nat.
+Proof.
+  intros edges sp ft fv ep k. unfold tc1d_occ, tc1d_count. rewrite !H_law.
+  destruct (Nat.lt_ge_cases k (nbins edges)) as [Hk|Hk].
+  - rewrite !hist_nth by exact Hk. intros Hz. apply count_if_all_false. intros v Hv.
+    apply (count_if_zero_in _ _ _ Hz). apply in_somes in Hv.
+    pose proof (attributed_in_rvals sp ft fv ep) as F. rewrite Forall_forall in F.
+    exact (F _ Hv).
+  - intros _. apply nth_overflow. rewrite hist_length. exact Hk.
+Qed.
+
+Theorem tc1d_never_inf : forall rate edges sp ft fv ep,
+  Forall (fun v => v <> TInf) (tc1d H rate edges sp ft fv ep).
+Proof.
+  intros rate edges sp ft fv ep. unfold tc1d. rewrite Forall_map. apply Forall_forall.
+  intros [c o] Hin. cbn [fst snd].
+  apply (in_combine_nth 0%nat 0%nat) in Hin; [|rewrite tc1d_count_length, tc1d_occ_length; reflexivity].
+  destruct Hin as (k & _ & -> & ->). apply ratio_not_inf. apply tc1d_visited.
+Qed.
+
+Theorem tc1d_length : forall rate edges sp ft fv ep, length (tc1d H rate edges sp ft fv ep) = nbins edges.
+Proof.
+  intros. unfold tc1d. rewrite map_length, combine_length, tc1d_count_length, tc1d_occ_length.
+  apply Nat.min_id.
+Qed.
+
+Theorem tc1d_value : forall rate edges sp ft fv ep k, (k < nbins edges)%nat ->
+  let c := nth k (tc1d_count H edges sp ft fv ep) 0%nat in
+  let o := nth k (tc1d_occ H edges ft fv ep) 0%nat in
+  (o = 0%nat -> nth k (tc1d H rate edges sp ft fv ep) TInf = TNaN) /\
+  (o <> 0%nat -> exists q, nth k (tc1d H rate edges sp ft fv ep) TInf = TVal q /\
+                 (q * inject_Z (Z.of_nat o) == inject_Z (Z.of_nat c) * rate)%Q).
+Proof.
+  intros rate edges sp ft fv ep k Hk c o.
+  assert (E : nth k (tc1d H rate edges sp ft fv ep) TInf = ratio rate c o).
+  { unfold tc1d. rewrite (nth_map_combine _ TInf 0%nat 0%nat).
+    - reflexivity.
+    - rewrite tc1d_count_length, tc1d_occ_length. reflexivity.
+    - rewrite tc1d_count_length. exact Hk. }
+  rewrite E. unfold ratio. split.
+  - intros Ho. assert (Hc : c = 0%nat) by (apply tc1d_visited; exact Ho). rewrite Ho, Hc. reflexivity.
+  - intros Ho. destruct (Nat.eqb_spec o 0) as [Ho'|_]; [contradiction|].
+    eexists. split; [reflexivity|]. field.
+    unfold Qeq. simpl. lia.
+Qed.
+
+(* ---- A5. continuous 1-d ---- *)
+Variable D : list Z -> Z -> option nat.
+Hypothesis D_law : forall edges x, D edges x = dig edges x.
+
+Lemma dig_go_bin_go x : forall rest k, (rest = [] \/ x <> last rest 0) -> dig_go k rest x = bin_go k rest x.
+Proof.
+  induction rest as [|b r IH]; intros k Hx; [reflexivity|].
+  rewrite bin_go_cons. cbn [dig_go]. destruct (x <? b) eqn:E; [reflexivity|].
+  destruct Hx as [Hx|Hx]; [discriminate|].
+  destruct r as [|c r'].
+  - simpl in Hx. simpl. destruct (Z.eqb_spec x b); [contradiction|reflexivity].
+  - apply IH. right. rewrite last_cons2 in Hx. exact Hx.
+Qed.
+
+Theorem dig_bin_of : forall edges x, increasing edges -> x <> last edges 0 -> dig edges x = bin_of edges x.
+Proof.
+  intros [|a rest] x _ Hx; [reflexivity|]. unfold dig, bin_of.
+  destruct (x <? a); [reflexivity|]. apply dig_go_bin_go.
+  destruct rest as [|b r]; [left; reflexivity|right]. rewrite last_cons2 in Hx. exact Hx.
+Qed.
+
+Lemma last_nth_len {A} (d : A) : forall l, last l d = nth (length l - 1) l d.
+Proof.
+  induction l as [|a r IH]; [reflexivity|]. destruct r as [|b r']; [reflexivity|].
+  rewrite last_cons2, IH. cbn [length]. rewrite !Nat.sub_succ, !Nat.sub_0_r. reflexivity.
+Qed.
+
+Lemma dig_go_none x : forall rest k, Forall (fun b => b <= x) rest -> dig_go k rest x = None.
+Proof.
+  induction rest as [|b r IH]; intros k F; [reflexivity|].
+  inversion F as [|? ? Hb Hr]; subst. cbn [dig_go].
+  destruct (Z.ltb_spec x b); [lia|]. apply IH. exact Hr.
+Qed.
+
+Theorem dig_last : forall edges, increasing edges -> (2 <= length edges)%nat ->
+  dig edges (last edges 0) = None /\ bin_of edges (last edges 0) = Some (nbins edges - 1)%nat.
+Proof.
+  intros edges Hi Hl. rewrite last_nth_len.
+  assert (Hall : Forall (fun b => b <= nth (length edges - 1) edges 0) edges).
+  { apply Forall_forall. intros b Hb. destruct (In_nth _ _ 0 Hb) as (i & Hi' & <-).
+    apply increasing_nth_mono; [exact Hi|lia]. }
+  split.
+  - destruct edges as [|a rest]; [reflexivity|]. unfold dig.
+    inversion Hall as [|? ? Ha Hr]; subst.
+    destruct (Z.ltb_spec (nth (length (a :: rest) - 1) (a :: rest) 0) a); [lia|].
+    apply dig_go_none. exact Hr.
+  - apply hist_bin_of; [exact Hi|]. unfold nbins. split; [lia|].
+    unfold hbin. replace (S (length edges - 1 - 1)) with (length edges - 1)%nat by lia.
+    replace (S (length edges - 1)) with (length edges) by lia. rewrite Nat.eqb_refl, Z.eqb_refl.
+    pose proof (increasing_nth_mono edges Hi (length edges - 1 - 1) (length edges - 1)).
+    destruct (Z.leb_spec (nth (length edges - 1 - 1) edges 0) (nth (length edges - 1) edges 0)); [|lia].
+    simpl. apply orb_true_r.
+Qed.
+
+Lemma dig_hbin edges x k : increasing edges -> (k < nbins edges)%nat ->
+  is_bin (dig edges x) k = hbin edges k x && negb (x =? last edges 0).
+Proof.
+  intros Hi Hk. destruct (Z.eqb_spec x (last edges 0)) as [->|Hne].
+  - assert (Hl : (2 <= length edges)%nat) by (unfold nbins in Hk; lia).
+    rewrite (proj1 (dig_last edges Hi Hl)). simpl. rewrite andb_false_r. reflexivity.
+  - rewrite dig_bin_of by assumption. rewrite <- hbin_is_bin by assumption.
+    simpl. rewrite andb_true_r. reflexivity.
+Qed.
+
+Theorem cont_spec : forall edges st sv ft fv ep, increasing edges ->
+  cont_tc D H edges st sv ft fv ep =
+  map (fun ko =>
+         if (snd ko =? 0)%nat then None
+         else let vals := map snd (filter (fun r => match fst r with
+                                                    | Some x => hbin edges (fst ko) x && negb (x =? last edges 0)
+                                                    | None => false end)
+                                          (cont_rows st sv ft fv ep)) in
+              Some (length vals, sumZ vals))
+      (combine (seq 0 (nbins edges)) (tc1d_occ H edges ft fv ep)).
+Proof.
+  intros edges st sv ft fv ep Hi. unfold cont_tc. apply map_ext_in. intros [k o] Hin.
+  apply in_combine_l in Hin. apply in_seq in Hin. cbn [fst snd]. cbv zeta.
+  assert (E : cont_bin D edges (cont_rows st sv ft fv ep) k =
+              map snd (filter (fun r => match fst r with
+                                        | Some x => hbin edges k x && negb (x =? last edges 0)
+                                        | None => false end) (cont_rows st sv ft fv ep))).
+  { unfold cont_bin. f_equal. apply filter_ext. intros [[x|] v]; cbn [fst]; [|reflexivity].
+    rewrite D_law. apply dig_hbin; [exact Hi|lia]. }
+  rewrite E. reflexivity.
+Qed.
+
+Theorem cont_unvisited_nan : forall edges st sv ft fv ep k, (k < nbins edges)%nat ->
+  nth k (tc1d_occ H edges ft fv ep) 0%nat = 0%nat -> nth k (cont_tc D H edges st sv ft fv ep) (Some (0%nat, 0)) = None.
+Proof.
+  intros edges st sv ft fv ep k Hk Ho. unfold cont_tc.
+  rewrite (nth_map_combine _ _ 0%nat 0%nat).
+  - cbn [snd]. rewrite Ho. reflexivity.
+  - rewrite seq_length, tc1d_occ_length. reflexivity.
+  - rewrite seq_length. exact Hk.
+Qed.
+
+Theorem cont_length : forall edges st sv ft fv ep, length (cont_tc D H edges st sv ft fv ep) = nbins edges.
+Proof.
+  intros. unfold cont_tc. rewrite map_length, combine_length, seq_length, tc1d_occ_length.
+  apply Nat.min_id.
+Qed.
+End NumPy1.
+
+Theorem cont_last_edge_refuted :
+  let edges := lin_edges 0 3 2 in
+  let ts := [0; 1000; 2000; 3000] in
+  let rows := cont_rows ts [10; 20; 30; 40] ts (scale 2 [0; 1; 2; 3]) [(0, 3000)] in
+  nth 1 (cont_tc dig hist edges ts [10; 20; 30; 40] ts (scale 2 [0; 1; 2; 3]) [(0, 3000)]) None = Some (1%nat, 30) /\
+  map snd (filter (fun r => in_hbin edges 1 (fst r)) rows) = [30; 40].
+Proof. cbv zeta. split; vm_compute; reflexivity. Qed.
+
+(* ---------------------------------------------------------------------------------------------- *)
+(* A6. 2-d                                                                                        *)
+Definition cell2 (ex ey : list Z) (i j : nat) (p : Z * Z) : bool := hbin ex i (fst p) && hbin ey j (snd p).
+
+Lemma hist2d_nth ex ey pts i j :
+  nth j (nth i (hist2d ex ey pts) []) 0%nat =
+  if ((i <? nbins ex) && (j <? nbins ey))%nat then count_if (cell2 ex ey i j) pts else 0%nat.
+Proof.
+  unfold hist2d. destruct (Nat.ltb_spec i (nbins ex)) as [Hi|Hi].
+  - rewrite nth_map_seq by exact Hi. destruct (Nat.ltb_spec j (nbins ey)) as [Hj|Hj]; cbn [andb].
+    + rewrite nth_map_seq by exact Hj. reflexivity.
+    + apply nth_overflow. rewrite map_length, seq_length. exact Hj.
+  - cbn [andb]. rewrite (nth_overflow _ []) by (rewrite map_length, seq_length; exact Hi).
+    destruct j; reflexivity.
+Qed.
+
+Lemma hist2d_length ex ey pts : length (hist2d ex ey pts) = nbins ex.
+Proof. unfold hist2d. rewrite map_length, seq_length. reflexivity. Qed.
+
+Lemma hist2d_row_length ex ey pts i : (i < nbins ex)%nat -> length (nth i (hist2d ex ey pts) []) = nbins ey.
+Proof.
+  intros Hi. unfold hist2d. rewrite nth_map_seq by exact Hi. rewrite map_length, seq_length. reflexivity.
+Qed.
+
+Section NumPy2.
+Variable H2 : list Z -> list Z -> list (Z * Z) -> list (list nat).
+Hypothesis H2_law : forall ex ey pts, H2 ex ey pts = hist2d ex ey pts.
+
+Theorem attributed2_fst : forall sp ft fx fy ep,
+  map (option_map fst) (attributed2 sp ft fx fy ep) = attributed sp ft fx ep.
+Proof.
+  intros. unfold attributed2, attributed. rewrite map_map. apply map_ext. intros [j|]; reflexivity.
+Qed.
+
+Theorem attributed2_snd : forall sp ft fx fy ep,
+  map (option_map snd) (attributed2 sp ft fx fy ep) = attributed sp ft fy ep.
+Proof.
+  intros. unfold attributed2, attributed. rewrite map_map. apply map_ext. intros [j|]; reflexivity.
+Qed.
+
+Theorem tc2d_count_spec : forall ex ey sp ft fx fy ep,
+  tc2d_count H2 ex ey sp ft fx fy ep =
+  map (fun i => map (fun j => count_if (in_hbin2 ex ey i j) (attributed2 sp ft fx fy ep)) (seq 0 (nbins ey)))
+      (seq 0 (nbins ex)).
+Proof.
+  intros. unfold tc2d_count. rewrite H2_law. unfold hist2d. apply map_ext. intros i.
+  apply map_ext. intros j. rewrite count_if_somes. apply count_if_ext. intros [[x y]|] _; reflexivity.
+Qed.
+
+Lemma attributed2_in_combine sp ft fx fy ep v :
+  In v (somes (attributed2 sp ft fx fy ep)) -> In v (combine (rvals ft fx ep) (rvals ft fy ep)).
+Proof.
+  intros Hv. apply in_somes in Hv. unfold attributed2 in Hv. apply in_map_iff in Hv.
+  destruct Hv as ([j|] & E & Hin); [|discriminate]. cbn [option_map] in E. inversion E; subst; clear E.
+  pose proof (value_from_lt_rvals sp ft fx ep) as F. rewrite Forall_forall in F. specialize (F _ Hin).
+  cbv beta iota in F.
+  assert (Hl : length (rvals ft fx ep) = length (rvals ft fy ep)) by (rewrite !rvals_length; reflexivity).
+  rewrite <- (combine_nth _ _ j 0 0 Hl). apply nth_In.
+  rewrite combine_length, <- Hl, Nat.min_id. exact F.
+Qed.
+
+Theorem tc2d_visited : forall ex ey sp ft fx fy ep i j,
+  nth j (nth i (tc2d_occ H2 ex ey ft fx fy ep) []) 0%nat = 0%nat ->
+  nth j (nth i (tc2d_count H2 ex ey sp ft fx fy ep) []) 0%nat = 0%nat.
+Proof.
+  intros ex ey sp ft fx fy ep i j. unfold tc2d_occ, tc2d_count. rewrite !H2_law, !hist2d_nth.
+  destruct ((i <? nbins ex) && (j <? nbins ey))%nat; [|reflexivity].
+  intros Hz. apply count_if_all_false. intros v Hv.
+  apply (count_if_zero_in _ _ _ Hz). eapply attributed2_in_combine. exact Hv.
+Qed.
+
+Theorem tc2d_never_inf : forall rate ex ey sp ft fx fy ep,
+  Forall (Forall (fun v => v <> TInf)) (tc2d H2 rate ex ey sp ft fx fy ep).
+Proof.
+  intros rate ex ey sp ft fx fy ep. unfold tc2d. rewrite Forall_map. apply Forall_forall.
+  intros [rc ro] Hin. cbn [fst snd].
+  assert (Lc : length (tc2d_count H2 ex ey sp ft fx fy ep) = nbins ex)
+    by (unfold tc2d_count; rewrite H2_law; apply hist2d_length).
+  assert (Lo : length (tc2d_occ H2 ex ey ft fx fy ep) = nbins ex)
+    by (unfold tc2d_occ; rewrite H2_law; apply hist2d_length).
+  apply (in_combine_nth [] []) in Hin; [|rewrite Lc, Lo; reflexivity].
+  destruct Hin as (i & Hi & -> & ->). rewrite Lc in Hi.
+  rewrite Forall_map. apply Forall_forall. intros [c o] Hin. cbn [fst snd].
+  apply (in_combine_nth 0%nat 0%nat) in Hin.
+  - destruct Hin as (j & _ & -> & ->). apply ratio_not_inf. apply tc2d_visited.
+  - unfold tc2d_count, tc2d_occ. rewrite !H2_law, !hist2d_row_length by exact Hi. reflexivity.
+Qed.
+
+Lemma cell_indicator (a : bool) edges y : increasing edges -> (2 <= length edges)%nat ->
+  sum_nat (map (fun k => if a && hbin edges k y then 1%nat else 0%nat) (seq 0 (nbins edges)))
+  = if a && inr edges y then 1%nat else 0%nat.
+Proof.
+  intros Hi Hl. destruct a; cbn [andb]; [apply hbin_indicator; assumption|apply sum_nat_map_zero].
+Qed.
+
+Theorem tc2d_conservation : forall ex ey sp ft fx fy ep,
+  increasing ex -> increasing ey -> (2 <= length ex)%nat -> (2 <= length ey)%nat ->
+  sum_nat (map sum_nat (tc2d_count H2 ex ey sp ft fx fy ep)) =
+  count_if (fun o => match o with
+                     | Some (x, y) => (hd 0 ex <=? x) && (x <=? last ex 0) && (hd 0 ey <=? y) && (y <=? last ey 0)
+                     | None => false end) (attributed2 sp ft fx fy ep).
+Proof.
+  intros ex ey sp ft fx fy ep Hix Hiy Hlx Hly. unfold tc2d_count. rewrite H2_law. unfold hist2d.
+  set (pts := somes (attributed2 sp ft fx fy ep)). rewrite map_map.
+  transitivity (sum_nat (map (fun i => count_if (fun p : Z * Z => hbin ex i (fst p) && inr ey (snd p)) pts)
+                             (seq 0 (nbins ex)))).
+  { f_equal. apply map_ext. intros i.
+    apply (sum_count_if (fun j (p : Z * Z) => hbin ex i (fst p) && hbin ey j (snd p))).
+    intros p. apply cell_indicator; assumption. }
+  transitivity (count_if (fun p : Z * Z => inr ex (fst p) && inr ey (snd p)) pts).
+  { apply (sum_count_if (fun i (p : Z * Z) => hbin ex i (fst p) && inr ey (snd p))).
+    intros p.
+    transitivity (sum_nat (map (fun k => if inr ey (snd p) && hbin ex k (fst p) then 1%nat else 0%nat)
+                               (seq 0 (nbins ex)))).
+    { f_equal. apply map_ext. intros k. rewrite andb_comm. reflexivity. }
+    rewrite cell_indicator by assumption. rewrite andb_comm. reflexivity. }
+  unfold pts. rewrite count_if_somes. apply count_if_ext. intros [[x y]|] _; [|reflexivity].
+  unfold inr. cbn [fst snd]. rewrite andb_assoc. reflexivity.
+Qed.
+End NumPy2.
+
+Print Assumptions hist_bin_of.
+Print Assumptions hist_conservation.
+Print Assumptions attributed_structure.
+Print Assumptions attr_block_nearest.
+Print Assumptions tc1d_conservation.
+Print Assumptions tc1d_never_inf.
+Print Assumptions tc1d_value.
+Print Assumptions cont_spec.
+Print Assumptions tc2d_never_inf.
